@@ -26,6 +26,7 @@ type Replayer struct {
 	Sigs    []uint64
 	PrefixSig uint64
 	Bad     string
+	Keys    []uint64 // happens-before state key at every point
 	Descs   []string // chosen alternative descriptions (kept only when KeepDescs)
 	KeepDescs bool
 }
@@ -60,6 +61,11 @@ func (r *Replayer) Choose(alts []verifrt.Alt) int {
 	r.Sigs = append(r.Sigs, r.Sig)
 	if i+1 == len(r.Prefix) {
 		r.PrefixSig = r.Sig
+	}
+	if sc := verifrt.Current(); sc != nil {
+		r.Keys = append(r.Keys, sc.StateKey())
+	} else {
+		r.Keys = append(r.Keys, 0)
 	}
 	r.Choices = append(r.Choices, k)
 	r.NAlts = append(r.NAlts, len(alts))
@@ -109,6 +115,7 @@ type batchResult struct {
 	Violations []Violation      `json:"violations"`
 	Internal   string           `json:"internal,omitempty"`
 	Sample     []string         `json:"sample,omitempty"`
+	Pruned     int64            `json:"pruned"`
 }
 
 type request struct {
@@ -119,8 +126,21 @@ type request struct {
 }
 
 // runBatch explores the subtree of it depth-first until the budget of executions is used up.
+// NoPrune disables happens-before pruning (VERIF_NOPRUNE=1): every schedule within the bound is executed.
+var NoPrune = os.Getenv("VERIF_NOPRUNE") != ""
+
+// visited state keys of the scenario / bound currently explored by this worker process
+var (
+	visited    = map[uint64]int{}
+	visitedFor string
+)
+
 func runBatch(sc *Scenario, bound int, it item, budget int) batchResult {
 	res := batchResult{Labels: map[string]int64{}}
+	if tag := fmt.Sprintf("%s/%d", sc.Name, bound); tag != visitedFor {
+		visited = map[uint64]int{}
+		visitedFor = tag
+	}
 	seen := map[uint64]bool{}
 	seenV := map[string]bool{}
 	stack := []item{it}
@@ -173,7 +193,21 @@ func runBatch(sc *Scenario, bound int, it item, budget int) batchResult {
 			res.Sample = append(res.Sample, fmt.Sprintf("%s choices=%v label=%s", sc.Name, r.Choices, out.Label))
 		}
 		// children: every alternative at every point after the prefix whose cumulative cost stays within the bound
-		for i := len(r.Choices) - 1; i >= len(cur.Prefix); i-- {
+		// happens-before pruning: a state (thread event chains up to reordering of independent operations) already expanded
+		// with at least this much deviation budget has had all its continuations generated
+		limit := len(r.Choices)
+		if !NoPrune {
+			left := bound - cur.Cost
+			for i := len(cur.Prefix); i < len(r.Choices); i++ {
+				if b, ok := visited[r.Keys[i]]; ok && b >= left {
+					limit = i
+					res.Pruned++
+					break
+				}
+				visited[r.Keys[i]] = left
+			}
+		}
+		for i := limit - 1; i >= len(cur.Prefix); i-- {
 			for k := r.NAlts[i] - 1; k >= 1; k-- {
 				c := cur.Cost + int(r.Costs[i][k])
 				if c > bound {
@@ -226,6 +260,7 @@ type Result struct {
 	Internal   string
 	Samples    []string
 	Wall       float64
+	Pruned     int64
 }
 
 type worker struct {
@@ -329,6 +364,7 @@ func (p *Pool) Explore(sc *Scenario, bound int, deadline time.Time) Result {
 					stop = true
 				} else {
 					res.Execs += br.Execs
+					res.Pruned += br.Pruned
 					res.Points += br.Points
 					if br.MaxDepth > res.MaxDepth {
 						res.MaxDepth = br.MaxDepth
